@@ -328,3 +328,69 @@ Proof.
   - apply forallb_forall. intros x Hx. rewrite Forall_forall in H. apply H; exact Hx.
   - cbn. rewrite orb_true_r. cbn. apply forallb_forall. intros x Hx. rewrite Forall_forall in H. apply H; exact Hx.
 Qed.
+
+(* ------------------------------------------------------------------------------------------ *)
+(* statements used by Properties_C10r.v *)
+
+Lemma sim_lemma : forall v, v_call_keeps v = true ->
+  forall i h s, wf h i = true -> compat h (itop s) = true -> glob_ok v h (top s) i = true ->
+  forall s' o ok, walk v i s = (s', o, ok) ->
+  (o, ok) = spec h (top s) i /\ (ok = true -> s' = s).
+Proof.
+  intros v Hv i h s Hw Hc Hg s' o ok E.
+  destruct (agrees_lemma v Hv i h s Hw Hc Hg) as (K1 & K2 & K3). rewrite E in *. cbn in *.
+  destruct (spec h (top s) i) as [a b]. cbn in *. subst. auto.
+Qed.
+
+Lemma fixed_lemma :
+  forall i h s, wf h i = true -> compat h (itop s) = true ->
+  forall s' o ok, walk fixed_variant i s = (s', o, ok) ->
+  (o, ok) = spec h (top s) i /\ (ok = true -> s' = s).
+Proof.
+  intros i h s Hw Hc. apply (sim_lemma fixed_variant eq_refl i h s Hw Hc). apply glob_ok_fixed.
+Qed.
+
+(* xsl:call-template is transparent: what is seen inside the called template is what would be seen
+   if its content stood in the place of the call *)
+Lemma call_lemma : forall v, v_call_keeps v = true ->
+  forall t d l s, wf Ord (ICall [] [ITemplate t d l]) = true -> glob_ok v Ord (top s) (ICall [] [ITemplate t d l]) = true ->
+  forall s1 o1 ok1 s2 o2 ok2,
+  walk v (ICall [] [ITemplate t d l]) s = (s1, o1, ok1) ->
+  walk v (IBlock d l) s = (s2, o2, ok2) ->
+  o1 = o2 /\ ok1 = ok2.
+Proof.
+  intros v Hv t d l s Hw Hg s1 o1 ok1 s2 o2 ok2 E1 E2.
+  destruct (sim_lemma v Hv _ Ord s Hw eq_refl Hg _ _ _ E1) as [A _].
+  assert (Hw2 : wf Ord (IBlock d l) = true).
+  { rewrite wf_block.
+    change (how_eqb Ord Ord && forallb (wf Ord) [] && forallb is_template [ITemplate t d l] &&
+            (wf ByCall (ITemplate t d l) && true) = true) in Hw.
+    rewrite wf_template in Hw. cbn in Hw. rewrite andb_true_r in Hw. exact Hw. }
+  assert (Hg2 : glob_ok v Ord (top s) (IBlock d l) = true).
+  { cbn [glob_ok forallb] in Hg |- *. rewrite andb_true_r in Hg. exact Hg. }
+  destruct (sim_lemma v Hv _ Ord s Hw2 eq_refl Hg2 _ _ _ E2) as [B _].
+  assert (S : spec Ord (top s) (ICall [] [ITemplate t d l]) = spec Ord (top s) (IBlock d l)).
+  { cbn [spec spec_list sbind fst snd app]. destruct (spec_list (spec (kid_how d) (top s)) l) as [a [|]]; cbn; rewrite ?app_nil_r; reflexivity. }
+  rewrite S in A. rewrite <- B in A. inversion A; auto.
+Qed.
+
+(* the content of xsl:for-each sees a null rule, whatever rule surrounds it *)
+Lemma for_each_lemma : forall v, v_call_keeps v = true ->
+  forall sel site rest s s' o ok,
+  wf Ord (IForEach sel [IBlock false (IObs site :: rest)]) = true ->
+  glob_ok v Ord (top s) (IForEach sel [IBlock false (IObs site :: rest)]) = true ->
+  walk v (IForEach sel [IBlock false (IObs site :: rest)]) s = (s', o, ok) ->
+  snd (spec_list (spec Ord (top s)) sel) = true ->
+  In {| o_site := site; o_cur := None; o_ai := None |} o.
+Proof.
+  intros v Hv sel site rest s s' o ok Hw Hg E Hsel.
+  destruct (sim_lemma v Hv _ Ord s Hw eq_refl Hg _ _ _ E) as [A _].
+  cbn [spec spec_list] in A. destruct (spec_list (spec Ord (top s)) sel) as [a b]. cbn in Hsel. subst b.
+  destruct (spec_list (spec (kid_how false) None) rest) as [c d]. cbn in A. inversion A.
+  apply in_or_app. right. destruct d; left; reflexivity.
+Qed.
+
+(* xsl:apply-imports where the current rule is null: the error, and nothing is instantiated *)
+Lemma imports_null_lemma : forall v site n m ch r s,
+  top s = None -> walk v (IImports site n m ch r) s = (s, [{| o_site := site; o_cur := None; o_ai := Some (n, m, ch) |}], false).
+Proof. intros v site n m ch r s H. cbn [walk]. unfold mk_obs. rewrite H. reflexivity. Qed.
